@@ -616,3 +616,38 @@ def judge_rejections(ctx, rejections, module, dev_cfgs, describe, cap=5):
                                     "events": r["events"][:400], "program": r["events"][0].get("program")})
     for r in left[cap:]:
         ctx.violations.append((describe(r), ""))
+
+
+def judge_calls(ctx, bad, module, dev_cfgs, describe, cap=5, skip_prefix="skip-"):
+    """Binding F verdicts.  `bad` = [(event, verdict)] from the strict spec.  Verdict keys starting with
+    `skip_prefix` are instances outside the property's quantifier (counted, returned).  The others are
+    re-validated with each recorded deviation enabled: accepted there -> KNOWN-FINDING, else VIOLATION."""
+    skipped = [(e, v) for e, v in bad if v.get("key", "").startswith(skip_prefix)]
+    left = [(e, v) for e, v in bad if not v.get("key", "").startswith(skip_prefix)]
+    for k, cfg in dev_cfgs.items():
+        if not left or not ctx.finding_for(k):
+            continue
+        p = ctx.work / f"judge-{k}.ndjson"
+        with open(p, "w") as f:
+            for e, _ in left:
+                f.write(json.dumps(e, separators=(",", ":")) + "\n")
+        _, still = validate_calls(ctx, module, cfg, p)
+        still_keys = {json.dumps(e, sort_keys=True) for e, v in still if not v.get("key", "").startswith(skip_prefix)}
+        nxt = []
+        for e, v in left:
+            if json.dumps(e, sort_keys=True) in still_keys:
+                nxt.append((e, v))
+            else:
+                ctx.known_finding(k)
+        left = nxt
+    for e, v in left[:cap]:
+        ctx.violation(describe(e, v), {"event": e, "verdict": v})
+    for e, v in left[cap:]:
+        ctx.violations.append((describe(e, v), ""))
+    return len(skipped)
+
+
+def tlc_replay_cases(ctx, name, module, cfg, tag="REPLAY", **kw):
+    """Spec -> impl: run TLC with a config whose invariant prints one JSON case per behaviour
+    (<<"REPLAY", json>>); cached like LTS dumps.  Returns (path, count)."""
+    return tlc_dump(ctx, name, module, cfg, tag=tag, **kw)
